@@ -341,3 +341,7 @@ def run(ctx: Context) -> None:  # noqa: F811
     ctx.rep.rule('C05.R7', 'the cancellation shield enters and leaves a CancelScope(shield=True) of the running backend')
     backend.shield(ctx, 'C05.R7')
     ctx.rep.explanation = (ctx.rep.explanation or '') + ' R7: the shield class really is a CancelScope(shield=True), entered and exited unconditionally.'
+    from . import support
+
+    ctx.rep.rule('C05.R8', "the convenience API lets go of the response on every path: request() closes it in a finally after reading, stream() yields it inside try/finally, Response.aclose() reaches the stream's close")
+    support.api_releases(ctx, 'C05.R8')
